@@ -52,6 +52,7 @@ type upstream struct {
 	uri  string
 	mu   sync.Mutex
 	hits int
+	only string // when set, the fault mode applies to this endpoint only; the others are served healthily
 }
 
 func payload(endpoint string, idx int) string {
@@ -100,7 +101,11 @@ func newUpstream(idx int, m mode) *upstream {
 			ep = "flags"
 		}
 		w.Header().Set("Content-Type", "application/json")
-		switch m.name {
+		name := m.name
+		if u.only != "" && ep != u.only {
+			name = "healthy"
+		}
+		switch name {
 		case "healthy":
 			w.Write([]byte(payload(ep, idx)))
 		case "http-500-text":
@@ -318,6 +323,82 @@ func failover(c *explore.Chooser) *explore.Case {
 
 const rulesYAML = "groups:\n- name: g\n  rules:\n  - alert: A\n    expr: rate(http_requests_total[2m]) > 0\n    for: 5m\n    labels:\n      severity: page\n    annotations:\n      summary: x\n  - record: r:sum\n    expr: sum(up) by (job)\n"
 
+// sequences: two calls on one failover group. The first upstream misbehaves on one endpoint only; a following
+// call to a *different* endpoint, which that upstream serves fine, must be answered by it - what an upstream did
+// on one endpoint says nothing about another (pint only remembers "API unsupported" per endpoint).
+func sequences(c *explore.Chooser) *explore.Case {
+	e1 := endpoints[c.Free(len(endpoints), "first-endpoint")]
+	e2 := endpoints[c.Free(len(endpoints), "second-endpoint")]
+	if e1 == e2 {
+		return &explore.Case{Skip: true}
+	}
+	var seqModes []mode
+	for _, m := range modes {
+		if m.name != "refused" && m.name != "header-timeout" {
+			seqModes = append(seqModes, m)
+		}
+	}
+	m := seqModes[c.Free(len(seqModes), "first-endpoint-mode")]
+	ups := []*upstream{newUpstream(0, m), newUpstream(1, modes[0])}
+	ups[0].only = e1
+	var servers []*promapi.Prometheus
+	for _, u := range ups {
+		defer u.close()
+		servers = append(servers, promapi.NewPrometheus("prom", u.uri, "", nil, time.Second, 2, 1000, nil))
+	}
+	fg := promapi.NewFailoverGroup("prom", ups[0].uri, servers, false, "up", nil, nil, nil)
+	reg := prometheus.NewRegistry()
+	fg.StartWorkers(reg)
+	defer fg.Close(reg)
+	call := func(ep string) (answered string, err error) {
+		ctx := context.Background()
+		switch ep {
+		case "query":
+			var r *promapi.QueryResult
+			if r, err = fg.Query(ctx, "up"); err == nil && len(r.Series) == 1 {
+				answered = r.Series[0].Labels.Get("upstream")
+			}
+		case "query_range":
+			var r *promapi.RangeQueryResult
+			if r, err = fg.RangeQuery(ctx, "up", fixedRange{}); err == nil && len(r.Series.Ranges) == 1 {
+				answered = r.Series.Ranges[0].Labels.Get("upstream")
+			}
+		case "config":
+			var r *promapi.ConfigResult
+			if r, err = fg.Config(ctx, 0); err == nil {
+				answered = r.Config.Global.ExternalLabels["upstream"]
+			}
+		case "flags":
+			var r *promapi.FlagsResult
+			if r, err = fg.Flags(ctx); err == nil {
+				if v := strings.TrimSuffix(r.Flags["storage.tsdb.retention.time"], "d"); v != "" {
+					answered = fmt.Sprint(int(v[0]-'0') - 1)
+				}
+			}
+		case "metadata":
+			var r *promapi.MetadataResult
+			if r, err = fg.Metadata(ctx, "up"); err == nil && len(r.Metadata) == 1 {
+				answered = strings.TrimPrefix(r.Metadata[0].Help, "upstream ")
+			}
+		}
+		return answered, err
+	}
+	call(e1)
+	before := ups[1].count()
+	answered, err := call(e2)
+	input := map[string]any{"first_call": e1, "first_upstream_on_first_call": m.name, "second_call": e2}
+	cs := &explore.Case{Input: input, Key: fmt.Sprint(e1, m.name, e2), Outcome: "sequence"}
+	switch {
+	case err != nil:
+		cs.Violate(fmt.Sprintf("sequence: healthy-upstream-not-used after=%s/%s endpoint=%s", e1, m.name, e2), fmt.Sprintf("the first upstream serves %s fine but the call failed after a %s on %s: %v", e2, m.name, e1, err), input)
+	case answered != "0":
+		cs.Violate(fmt.Sprintf("sequence: wrong-upstream-answered after=%s/%s endpoint=%s", e1, m.name, e2), fmt.Sprintf("%s was answered by upstream %q although the first upstream serves it fine (it answered %s with %s before)", e2, answered, e1, m.name), input)
+	case ups[1].count() != before:
+		cs.Violate(fmt.Sprintf("sequence: later-upstream-contacted after=%s/%s endpoint=%s", e1, m.name, e2), "the second upstream was contacted although the first one answered", input)
+	}
+	return cs
+}
+
 func degrade(c *explore.Chooser) *explore.Case {
 	n := 1 + c.Free(maxUpstreams(), "upstreams")
 	required := c.Free(2, "required") == 1
@@ -402,7 +483,7 @@ func degrade(c *explore.Chooser) *explore.Case {
 func main() {
 	explore.Main(&explore.Config{
 		Property: "C15", Level: "fault_enumeration",
-		Rule: "real FailoverGroup over real net/http against real local listeners: every assignment of 10 fault modes (healthy, connection refused, 500 text, 502 html, 503 JSON server_error, 400 bad_data, 422 execution, 404, 200 truncated JSON, response-header timeout) to 1..2 upstreams (thorough 3) x 5 endpoints (query, query_range, config, flags, metadata); oracle: upstream i is contacted iff all earlier ones are unavailable, the first reachable upstream's payload or query-caused error comes back unchanged and classified, a full outage is an unavailability error; space 'degrade': every all-unavailable assignment x required: the real online checks report exactly one 'unable to run checks' problem each with Warning (Bug when required) and no finding about the rule. distinct = (endpoint, assignment)",
+		Rule: "real FailoverGroup over real net/http against real local listeners: every assignment of 10 fault modes (healthy, connection refused, 500 text, 502 html, 503 JSON server_error, 400 bad_data, 422 execution, 404, 200 truncated JSON, response-header timeout) to 1..2 upstreams (thorough 3) x 5 endpoints (query, query_range, config, flags, metadata); oracle: upstream i is contacted iff all earlier ones are unavailable, the first reachable upstream's payload or query-caused error comes back unchanged and classified, a full outage is an unavailability error; space 'degrade': every all-unavailable assignment x required: the real online checks report exactly one 'unable to run checks' problem each with Warning (Bug when required) and no finding about the rule. distinct = (endpoint, assignment); space sequences: two calls on one group, the first upstream misbehaving (8 modes) on the first call's endpoint only, every ordered pair of different endpoints: the second call must be answered by the first upstream and must not touch the second",
 		Assumptions: []string{
 			"404 on config/flags/metadata is a permissive cell (pint treats 'API unsupported' like unavailability)",
 			"the only timed element is the client's own deadline (50 ms + 1 s); no wall-clock oracle",
@@ -411,6 +492,7 @@ func main() {
 		Spaces: []*explore.Space{
 			{Name: "failover", Body: failover, Bound: func(string) int { return -1 }, Setup: func(t string) { tier = t }},
 			{Name: "degrade", Body: degrade, Bound: func(string) int { return -1 }, Setup: func(t string) { tier = t }},
+			{Name: "sequences", Body: sequences, Bound: func(string) int { return -1 }, Setup: func(t string) { tier = t }},
 		},
 		BudgetS: func(t string) int {
 			if t == "thorough" {
